@@ -4,6 +4,8 @@ use kvc::util::Opts;
 mod sx;
 mod c12;
 mod c21;
+mod c20;
+mod c03;
 
 fn main() {
     let args: Vec<String> = std::env::args().collect();
@@ -15,6 +17,8 @@ fn main() {
     let rc = match args[1].as_str() {
         "c12" => c12::run(&opts),
         "c21" => c21::run(&opts),
+        "c20" => c20::run(&opts),
+        "c03" => c03::run(&opts),
         other => {
             eprintln!("unknown subcommand {other}");
             2
